@@ -1056,6 +1056,32 @@ func requiredCases(t *gcore.Type) []gcore.Case {
 			}
 		}
 	}
+	// required fields that are PRESENT with the zero / empty value of their kind (0, false, "", empty bytes, empty message): the
+	// message is complete - both directions must accept it (all of them at once; each alone among non-zero ones)
+	if len(req) > 0 {
+		zero := func(m *dynamicpb.Message, f protoreflect.FieldDescriptor) bool {
+			if f.Message() != nil {
+				if hasRequired(f.Message()) {
+					return false
+				}
+				m.Set(f, protoreflect.ValueOfMessage(dynamicpb.NewMessage(f.Message())))
+				return true
+			}
+			gcore.SetZero(m, f)
+			return true
+		}
+		all := full()
+		for _, f := range req {
+			zero(all, f)
+		}
+		out = append(out, gcore.Case{ID: "present-with-zero-value[all]", Msg: all})
+		for _, f := range req {
+			m := full()
+			if zero(m, f) {
+				out = append(out, gcore.Case{ID: "present-with-zero-value[" + string(f.Name()) + "]", Msg: m})
+			}
+		}
+	}
 	// nesting positions: any message-typed field whose type has required fields, holding a deficient / complete value
 	for i := 0; i < md.Fields().Len(); i++ {
 		f := md.Fields().Get(i)
